@@ -107,4 +107,7 @@ class Timer:
         self.start()
 
     def _unset_task(self, task: asyncio.Future):
-        self._task = None
+        # Only clear the handle when it still refers to the finished task, a
+        # reschedule might already have replaced it with a new task
+        if self._task is task:
+            self._task = None
